@@ -1288,6 +1288,9 @@ def thread_check(prop, tier, seed, t0, syss, kinds, real_only=()):
             sched = ",".join(str(rnd.randrange(nth)) for _ in range(rnd.randrange(8, 70)))
             free_lines.append("%s free=1 sched=%s" % (cfg, sched))
     ro_lines += free_lines
+    # corpus schedules that use the finer scheduling points have no counterpart in the model either
+    ro_lines += [l for l in lines if "free=1" in l]
+    lines = [l for l in lines if "free=1" not in l]
 
     def work(ch):
         if not ch:
